@@ -253,7 +253,8 @@ type tokGroup struct {
 	backup  []*pb.SnapshotChunk
 	withRev bool
 	createN int
-	control bool // control instance (empty tokens): requests are chosen to have no effect even when admitted
+	control bool            // control instance (empty tokens): requests are chosen to have no effect even when admitted
+	routed  map[string]bool // spelling name -> the server routes it to registered handlers (measured)
 }
 
 func bearerCtx(ctx context.Context, tok string) context.Context {
@@ -381,43 +382,111 @@ func firstDiff(a, b string) string {
 	return "no difference"
 }
 
+// ---- :path spellings ---------------------------------------------------------------------------
+
+// A spelling rewrites the canonical full method name ("/pkg.Service/Method") into another
+// :path. Whether the server routes a spelling to the registered handler is not assumed: it is
+// measured per instance with an unprotected call (routing does not depend on the service), and
+// whatever is routed is judged exactly like the canonical spelling.
+type spelling struct {
+	Name string
+	F    func(full string) string
+}
+
+func splitFull(full string) (svc, meth string) {
+	i := strings.LastIndexByte(full, '/')
+	return full[1:i], full[i+1:]
+}
+
+var spellings = []spelling{
+	{"no-leading-slash", func(f string) string { return f[1:] }},
+	{"double-leading-slash", func(f string) string { return "/" + f }},
+	{"trailing-slash", func(f string) string { return f + "/" }},
+	{"service-upper-case", func(f string) string { s, m := splitFull(f); return "/" + strings.ToUpper(s) + "/" + m }},
+	{"method-lower-case", func(f string) string { s, m := splitFull(f); return "/" + s + "/" + strings.ToLower(m) }},
+	{"percent-encoded-slash", func(f string) string { s, m := splitFull(f); return "/" + s + "%2F" + m }},
+	{"query-suffix", func(f string) string { return f + "?x=1" }},
+	{"no-leading-slash-double-inner", func(f string) string { s, m := splitFull(f); return s + "//" + m }},
+}
+
+// calibrateRouting measures which spellings this server routes: an unprotected unary call
+// (Cluster/Status) and an unprotected server stream (KV/IterateRange) spelled that way are
+// answered OK iff the spelling reaches the registered handler. ok=false: could not be measured.
+func (g *tokGroup) calibrateRouting(sp spelling) (routed, ok bool) {
+	var u, st outcome
+	for attempt := 0; attempt < 4; attempt++ {
+		ctx, cancel := context.WithTimeout(context.Background(), 10*time.Second)
+		u = mkOutcome(g.conn.Invoke(ctx, sp.F(pb.Cluster_Status_FullMethodName), &pb.StatusRequest{}, &pb.StatusResponse{}), false)
+		sd := &grpc.StreamDesc{StreamName: "IterateRange", ServerStreams: true}
+		cs, err := g.conn.NewStream(ctx, sd, sp.F(pb.KV_IterateRange_FullMethodName))
+		if err == nil {
+			err = cs.SendMsg(&pb.RangeRequest{Table: []byte(tblData), Key: []byte{0}, RangeEnd: []byte{0}})
+			_ = cs.CloseSend()
+			for err == nil {
+				err = cs.RecvMsg(&pb.RangeResponse{})
+			}
+		}
+		st = mkOutcome(err, false)
+		cancel()
+		if !u.transient() && !st.transient() {
+			break
+		}
+		time.Sleep(300 * time.Millisecond)
+	}
+	if u.transient() || st.transient() {
+		return false, false
+	}
+	if (u.Code == codes.OK) != (st.Code == codes.OK) {
+		// unary and streaming calls are routed differently for this spelling: treat it as
+		// routed (the stricter reading) - whatever answers OK somewhere reaches handlers
+		return true, true
+	}
+	return u.Code == codes.OK, true
+}
+
 // ---- calls -------------------------------------------------------------------------------------
 
-// call performs one probe of method m under credential context ctx. The request is chosen so
-// that an admitted call has a visible effect wherever the method has one.
-func (g *tokGroup) call(ctx context.Context, m method, createName string) outcome {
-	mc := pb.NewMaintenanceClient(g.conn)
-	tc := pb.NewTablesClient(g.conn)
+// call performs one probe of method m, sent with :path = path (m.Full for the canonical
+// spelling), under credential context ctx. The request is chosen so that an admitted call has a
+// visible effect wherever the method has one. Everything goes through conn.Invoke /
+// conn.NewStream so that the :path is under the driver's control.
+func (g *tokGroup) call(ctx context.Context, m method, path, createName string) outcome {
+	unary := func(req, resp any) outcome {
+		return mkOutcome(g.conn.Invoke(ctx, path, req, resp), false)
+	}
 	switch m.Full {
 	case pb.Tables_Create_FullMethodName:
-		_, err := tc.Create(ctx, &pb.CreateTableRequest{Name: createName})
-		return mkOutcome(err, false)
+		return unary(&pb.CreateTableRequest{Name: createName}, &pb.CreateTableResponse{})
 	case pb.Tables_Delete_FullMethodName:
-		_, err := tc.Delete(ctx, &pb.DeleteTableRequest{Name: tblVictim})
-		return mkOutcome(err, false)
+		return unary(&pb.DeleteTableRequest{Name: tblVictim}, &pb.DeleteTableResponse{})
 	case pb.Tables_List_FullMethodName:
-		resp, err := tc.List(ctx, &pb.ListTablesRequest{})
-		return mkOutcome(err, resp != nil && len(resp.Tables) > 0)
+		resp := &pb.ListTablesResponse{}
+		o := unary(&pb.ListTablesRequest{}, resp)
+		o.GotData = len(resp.Tables) > 0
+		return o
 	case pb.Maintenance_Reset_FullMethodName:
-		_, err := mc.Reset(ctx, &pb.ResetRequest{Table: []byte(tblData)})
-		return mkOutcome(err, false)
+		return unary(&pb.ResetRequest{Table: []byte(tblData)}, &pb.ResetResponse{})
 	case pb.Maintenance_Backup_FullMethodName:
-		st, err := mc.Backup(ctx, &pb.BackupRequest{Table: []byte(tblData)})
+		st, err := g.conn.NewStream(ctx, &grpc.StreamDesc{StreamName: m.Name, ServerStreams: true}, path)
 		if err != nil {
 			return mkOutcome(err, false)
 		}
+		if err := st.SendMsg(&pb.BackupRequest{Table: []byte(tblData)}); err != nil && !errors.Is(err, io.EOF) {
+			return mkOutcome(err, false)
+		}
+		_ = st.CloseSend()
 		got := false
 		for {
-			ch, err := st.Recv()
-			if err != nil {
+			ch := &pb.SnapshotChunk{}
+			if err := st.RecvMsg(ch); err != nil {
 				return mkOutcome(err, got)
 			}
-			if ch != nil && len(ch.Data) > 0 {
+			if len(ch.Data) > 0 {
 				got = true
 			}
 		}
 	case pb.Maintenance_Restore_FullMethodName:
-		st, err := mc.Restore(ctx)
+		st, err := g.conn.NewStream(ctx, &grpc.StreamDesc{StreamName: m.Name, ClientStreams: true}, path)
 		if err != nil {
 			return mkOutcome(err, false)
 		}
@@ -429,20 +498,20 @@ func (g *tokGroup) call(ctx context.Context, m method, createName string) outcom
 			msgs = append(msgs, &pb.RestoreMessage{Data: &pb.RestoreMessage_Chunk{Chunk: ch}})
 		}
 		for _, msg := range msgs {
-			if err := st.Send(msg); err != nil {
-				break // io.EOF: the status is delivered by CloseAndRecv
+			if err := st.SendMsg(msg); err != nil {
+				break // io.EOF: the status is delivered by RecvMsg
 			}
 		}
-		_, err = st.CloseAndRecv()
-		return mkOutcome(err, false)
+		_ = st.CloseSend()
+		return mkOutcome(st.RecvMsg(&pb.RestoreResponse{}), false)
 	}
 	// a method this driver does not know by name: call it generically with empty messages
 	switch m.Kind {
 	case "unary":
-		return mkOutcome(g.conn.Invoke(ctx, m.Full, &emptypb.Empty{}, &emptypb.Empty{}), false)
+		return unary(&emptypb.Empty{}, &emptypb.Empty{})
 	default:
 		sd := &grpc.StreamDesc{StreamName: m.Name, ServerStreams: m.Kind != "client-stream", ClientStreams: m.Kind != "server-stream"}
-		st, err := g.conn.NewStream(ctx, sd, m.Full)
+		st, err := g.conn.NewStream(ctx, sd, path)
 		if err != nil {
 			return mkOutcome(err, false)
 		}
@@ -539,9 +608,11 @@ func (g *tokGroup) captureBackup() error {
 // ---- the probe loop ----------------------------------------------------------------------------
 
 type tokProbe struct {
-	N      int    `json:"n"`
-	Method method `json:"method"`
-	Cred   cred   `json:"credential"`
+	N        int    `json:"n"`
+	Method   method `json:"method"`
+	Cred     cred   `json:"credential"`
+	Spelling string `json:"path_spelling,omitempty"` // "" = canonical
+	Path     string `json:"path"`                    // the :path actually sent
 }
 
 type tokWitness struct {
@@ -571,8 +642,25 @@ func (g *tokGroup) probes() []tokProbe {
 	var ps []tokProbe
 	for _, m := range protectedMethods() {
 		right, other := g.tokenFor(m)
-		for _, c := range tokenCreds(g.rng, right, other, g.all) {
-			ps = append(ps, tokProbe{Method: m, Cred: c})
+		creds := tokenCreds(g.rng, right, other, g.all)
+		for _, c := range creds {
+			ps = append(ps, tokProbe{Method: m, Cred: c, Path: m.Full})
+		}
+		// the same method under other spellings of the :path, with one credential per class
+		// of a fixed selection (whatever the server routes is judged like the canonical name)
+		want := []string{"right", "no-metadata", "empty-header", "empty-token", "substituted-char", "prefix", "case-flip-one", "other-service-token", "scheme-basic"}
+		if g.all {
+			want = append(want, "suffix-ext", "double-space", "random-token", "right-scheme-lower")
+		}
+		for _, sp := range spellings {
+			seen := map[string]bool{}
+			for _, c := range creds {
+				if seen[c.Class] || !contains(want, c.Class) {
+					continue
+				}
+				seen[c.Class] = true
+				ps = append(ps, tokProbe{Method: m, Cred: c, Spelling: sp.Name, Path: sp.F(m.Full)})
+			}
 		}
 	}
 	g.rng.Shuffle(len(ps), func(i, j int) { ps[i], ps[j] = ps[j], ps[i] })
@@ -590,6 +678,15 @@ func (g *tokGroup) probes() []tokProbe {
 		ps[i].N = i
 	}
 	return ps
+}
+
+func contains(l []string, x string) bool {
+	for _, e := range l {
+		if e == x {
+			return true
+		}
+	}
+	return false
 }
 
 // runProbes is the monitor proper.
@@ -610,8 +707,30 @@ func (g *tokGroup) runProbes() {
 		base = d
 		return true
 	}
+	g.routed = map[string]bool{}
+	measured := map[string]bool{}
+	for _, sp := range spellings {
+		routed, ok := g.calibrateRouting(sp)
+		if !ok {
+			r.Inconclusive(fmt.Sprintf("%s: routing of :path spelling %q could not be measured", g.id, sp.Name))
+			continue
+		}
+		measured[sp.Name], g.routed[sp.Name] = true, routed
+		if routed {
+			r.Distinct("path_spellings_routed_by_server", sp.Name)
+		} else {
+			r.Distinct("path_spellings_not_routed_by_server", sp.Name)
+		}
+	}
 	for _, p := range g.probes() {
 		p := p
+		if p.Spelling != "" && !measured[p.Spelling] {
+			continue
+		}
+		routed := p.Spelling == "" || g.routed[p.Spelling]
+		if !routed && !contains([]string{"no-metadata", "right", "substituted-char"}, p.Cred.Class) {
+			continue // a spelling the server does not route: three credentials are enough
+		}
 		if !g.target.alive() {
 			r.Inconclusive(fmt.Sprintf("%s: server process is gone before probe %d (%s); log tail: %s", g.id, p.N, p.Method.short(), lastLine(g.target.logTail(3))))
 			return
@@ -631,7 +750,7 @@ func (g *tokGroup) runProbes() {
 		var o outcome
 		for attempt := 0; attempt < 4; attempt++ {
 			ctx, cancel := context.WithTimeout(context.Background(), 20*time.Second)
-			o = g.call(p.Cred.ctx(ctx), p.Method, createName)
+			o = g.call(p.Cred.ctx(ctx), p.Method, p.Path, createName)
 			cancel()
 			if !o.transient() {
 				break
@@ -651,15 +770,34 @@ func (g *tokGroup) runProbes() {
 			continue
 		}
 		key := fmt.Sprintf("%s-%s-%s", g.flavour, p.Method.short(), p.Cred.Class)
+		if p.Spelling != "" {
+			key += "@path:" + p.Spelling
+			r.Count("noncanonical_path_probes", 1)
+			if routed {
+				r.Count("noncanonical_path_probes_routed", 1)
+			}
+		}
+		// noEffectExpected: the call was refused, or the server does not route this spelling at
+		// all and said so (the answer came from the framework, no handler ran)
+		noEffectExpected := o.refused()
 		switch {
+		case !routed:
+			if o.Code != codes.OK && !o.GotData {
+				noEffectExpected = true
+			} else if !p.Cred.Admit {
+				r.Violation("admitted-"+key,
+					fmt.Sprintf("%s %s sent as :path %q (a spelling this server does not route for unprotected calls) with credential %q %v was answered %s (data received: %v)",
+						g.flavour, p.Method.short(), p.Path, p.Cred.Class, p.Cred.MD, o.CodeS, o.GotData),
+					g.witness(&p, &o, "Unauthenticated or not routed", ""))
+			}
 		case !p.Cred.Admit && !o.refused():
 			r.Violation("admitted-"+key,
-				fmt.Sprintf("%s %s (%s) called with credential %q %v was not refused: code %s %q (data received: %v); maintenance.token=%q tables.token=%q",
-					g.flavour, p.Method.short(), p.Method.Kind, p.Cred.Class, p.Cred.MD, o.CodeS, o.Msg, o.GotData, g.spec.MaintToken, g.spec.TablesToken),
+				fmt.Sprintf("%s %s (%s) sent as :path %q with credential %q %v was not refused: code %s %q (data received: %v); maintenance.token=%q tables.token=%q",
+					g.flavour, p.Method.short(), p.Method.Kind, p.Path, p.Cred.Class, p.Cred.MD, o.CodeS, o.Msg, o.GotData, g.spec.MaintToken, g.spec.TablesToken),
 				g.witness(&p, &o, "Unauthenticated", ""))
 		case p.Cred.Admit && o.refused():
 			r.Violation("refused-right-token-"+key,
-				fmt.Sprintf("%s %s called with the configured token (%v) was refused: %s %q", g.flavour, p.Method.short(), p.Cred.MD, o.CodeS, o.Msg),
+				fmt.Sprintf("%s %s (:path %q) called with the configured token (%v) was refused: %s %q", g.flavour, p.Method.short(), p.Path, p.Cred.MD, o.CodeS, o.Msg),
 				g.witness(&p, &o, "admitted (any code but Unauthenticated)", ""))
 		}
 		if o.refused() && o.GotData {
@@ -672,11 +810,11 @@ func (g *tokGroup) runProbes() {
 			return
 		}
 		r.Count("state_dumps", 1)
-		if o.refused() {
+		if noEffectExpected {
 			r.Count("refusals_followed_by_dump", 1)
 			if after != base {
 				r.Violation("effect-after-refusal-"+key,
-					fmt.Sprintf("%s %s was refused (%s) but the state read back through the API (Tables/List ids, KV/Range contents, per-table applied index of Cluster/Status where quiescent) changed: %s", g.flavour, p.Method.short(), o.CodeS, firstDiff(base, after)),
+					fmt.Sprintf("%s %s (:path %q) was refused (%s) but the state read back through the API (Tables/List ids, KV/Range contents, per-table applied index of Cluster/Status where quiescent) changed: %s", g.flavour, p.Method.short(), p.Path, o.CodeS, firstDiff(base, after)),
 					g.witness(&p, &o, "state unchanged", firstDiff(base, after)))
 			}
 		} else {
@@ -704,12 +842,16 @@ func (g *tokGroup) runProbes() {
 		}
 		base = after
 		r.Eval(1)
-		if p.Cred.Near {
+		if p.Cred.Near || (p.Spelling != "" && routed) {
 			r.Nontrivial("tok|" + key + "|" + fmt.Sprint(p.Cred.MD))
 			r.Count("near_miss_token_probes", 1)
 		}
+		if p.Spelling != "" && routed && !p.Cred.Admit {
+			keep("token-path-"+g.flavour, map[string]any{"group": g.id, "method": p.Method.short(), "kind": p.Method.Kind, "path_sent": p.Path, "spelling": p.Spelling,
+				"credential": p.Cred.Class, "metadata": p.Cred.MD, "code": o.CodeS, "message": o.Msg})
+		}
 		if p.Cred.Near && p.N%11 == 3 {
-			keep("token-"+g.flavour, map[string]any{"group": g.id, "method": p.Method.short(), "kind": p.Method.Kind, "credential": p.Cred.Class, "metadata": p.Cred.MD,
+			keep("token-"+g.flavour, map[string]any{"group": g.id, "method": p.Method.short(), "kind": p.Method.Kind, "path_sent": p.Path, "credential": p.Cred.Class, "metadata": p.Cred.MD,
 				"oracle_admit": p.Cred.Admit, "code": o.CodeS, "message": o.Msg})
 		}
 	}
@@ -809,7 +951,7 @@ func runControl(r *ev.Run, id, flavour string, in *instance, conn *grpc.ClientCo
 			var o outcome
 			for attempt := 0; attempt < 4; attempt++ {
 				ctx, cancel := context.WithTimeout(context.Background(), 20*time.Second)
-				o = g.call(c.ctx(ctx), m, "") // Create with an empty name: InvalidArgument after admission, no effect
+				o = g.call(c.ctx(ctx), m, m.Full, "") // Create with an empty name: InvalidArgument after admission, no effect
 				cancel()
 				if !o.transient() {
 					break
